@@ -7,7 +7,9 @@ import (
 	"crypto/sha256"
 	"encoding/hex"
 	"fmt"
+	"runtime"
 	"strings"
+	"time"
 
 	"github.com/tetratelabs/wazero"
 	"github.com/tetratelabs/wazero/api"
@@ -55,6 +57,9 @@ type Options struct {
 	Hook func(mod api.Module)
 	// Lib, if set, is instantiated first under the name "lib" (the main module imports from it).
 	Lib *wasmgen.Module
+	// CancelAfterCall gives every call a context of its own that is cancelled once the call has
+	// returned (the `defer cancel()` idiom): nothing is cancelled while guest code runs.
+	CancelAfterCall bool
 }
 
 // Host implements the deterministic environment: imported functions return values computed
@@ -73,6 +78,20 @@ type Host struct {
 	nesting int
 	per     map[api.Module]*modState
 	cur     *modState
+	// Foreign lists host-function calls that reached this Host although the calling guest was
+	// instantiated through a session that owns a different Host (another runtime's host module):
+	// an isolation failure between runtimes (C11).
+	Foreign []string
+}
+
+type hostKey struct{}
+
+// arrive checks that the call was made by a guest of a session served by this Host.
+func (h *Host) arrive(ctx context.Context, fn string) {
+	if o, _ := ctx.Value(hostKey{}).(*Host); o != nil && o != h && len(h.Foreign) < 8 {
+		h.Foreign = append(h.Foreign, fn)
+		o.Foreign = append(o.Foreign, fn)
+	}
 }
 
 // modState is the host-side state of one calling instance: the host functions behave as
@@ -144,6 +163,7 @@ func (h *Host) Instantiate(ctx context.Context, rt wazero.Runtime, m *wasmgen.Mo
 		switch f.HostName {
 		case "enter":
 			fn = api.GoModuleFunc(func(ctx context.Context, mod api.Module, stack []uint64) {
+				h.arrive(ctx, "enter")
 				st := h.state(mod)
 				if len(st.entered) < 100000 {
 					st.entered = append(st.entered, uint32(stack[0]))
@@ -154,6 +174,7 @@ func (h *Host) Instantiate(ctx context.Context, rt wazero.Runtime, m *wasmgen.Mo
 			})
 		case "grow":
 			fn = api.GoModuleFunc(func(ctx context.Context, mod api.Module, stack []uint64) {
+				h.arrive(ctx, "grow")
 				d := uint32(stack[0]) & 1
 				h.log(h.state(mod), fmt.Sprintf("grow(%d)", d))
 				res := uint32(0xffffffff)
@@ -166,6 +187,7 @@ func (h *Host) Instantiate(ctx context.Context, rt wazero.Runtime, m *wasmgen.Mo
 			})
 		case "closer":
 			fn = api.GoModuleFunc(func(ctx context.Context, mod api.Module, stack []uint64) {
+				h.arrive(ctx, "closer")
 				arg := uint32(stack[0])
 				h.log(h.state(mod), fmt.Sprintf("closer(%d)", arg))
 				if h.Global != nil && arg&7 != 1 { // (a call that ends by unwinding has no results to record)
@@ -185,6 +207,7 @@ func (h *Host) Instantiate(ctx context.Context, rt wazero.Runtime, m *wasmgen.Mo
 			})
 		case "callback":
 			fn = api.GoModuleFunc(func(ctx context.Context, mod api.Module, stack []uint64) {
+				h.arrive(ctx, "callback")
 				arg := uint32(stack[0])
 				h.log(h.state(mod), fmt.Sprintf("callback(%d)", arg))
 				stack[0] = 0
@@ -211,6 +234,7 @@ func (h *Host) Instantiate(ctx context.Context, rt wazero.Runtime, m *wasmgen.Mo
 				// engines call it through a different path): a pure function of its arguments,
 				// logged only in the global log since the calling instance is unknown to it
 				gfn = api.GoFunc(func(ctx context.Context, stack []uint64) {
+					h.arrive(ctx, f.HostName)
 					acc := uint64(0x51ed270b9e3779b9)
 					var sb strings.Builder
 					sb.WriteString(f.HostName)
@@ -242,6 +266,7 @@ func (h *Host) Instantiate(ctx context.Context, rt wazero.Runtime, m *wasmgen.Mo
 				break
 			}
 			fn = api.GoModuleFunc(func(ctx context.Context, mod api.Module, stack []uint64) {
+				h.arrive(ctx, f.HostName)
 				st := h.state(mod)
 				st.calls++
 				acc := st.calls * 0x9e3779b97f4a7c15
@@ -400,7 +425,19 @@ func RunIn(ctx context.Context, rt wazero.Runtime, m *wasmgen.Module, script []C
 		if libFuel != nil && opt.FuelPerCall > 0 {
 			libFuel.Set(uint64(uint32(opt.FuelPerCall)))
 		}
-		res, out := wz.SafeCall(ctx, f, c.Args...)
+		cctx, cancel := ctx, context.CancelFunc(nil)
+		if opt.CancelAfterCall {
+			cctx, cancel = context.WithCancel(ctx)
+		}
+		res, out := wz.SafeCall(cctx, f, c.Args...)
+		if cancel != nil {
+			cancel()
+			// let anything that (wrongly) still watches the finished call's context run
+			runtime.Gosched()
+			if out.Kind != wz.KOK {
+				time.Sleep(300 * time.Microsecond)
+			}
+		}
 		st := Step{Kind: out.Kind, Detail: out.Detail, Exit: out.Exit}
 		if out.Kind == wz.KOK {
 			st.Results = canonResults(sigs[c.Fn].R, res)
@@ -658,6 +695,7 @@ func (t *Trace) HasKind(k string) bool {
 type Session struct {
 	RT        wazero.Runtime
 	Host      *Host
+	served    *Host // the Host whose host module the guests of this session import
 	CM        wazero.CompiledModule
 	FromBytes bool // instantiate from the binary (code closes with the instance) instead of the kept CompiledModule
 	M         *wasmgen.Module
@@ -667,11 +705,12 @@ type Session struct {
 // NewSession compiles m in rt and instantiates the host environment (once per runtime).
 func NewSession(ctx context.Context, rt wazero.Runtime, m *wasmgen.Module) (*Session, error) {
 	s := &Session{RT: rt, Host: &Host{MaxLog: 2000}, M: m, sigs: map[string]wasmgen.Sig{}}
-	if rt.Module(hostModule(m)) == nil {
+	if hm := rt.Module(hostModule(m)); hm == nil {
 		if err := s.Host.Instantiate(ctx, rt, m); err != nil {
 			return nil, err
 		}
-	}
+		s.served = s.Host
+	} // (otherwise another session's Host serves this runtime: calls are not attributed)
 	cm, err := rt.CompileModule(ctx, m.Bytes)
 	if err != nil {
 		return nil, err
@@ -710,6 +749,9 @@ func (s *Session) InstantiateNamed(ctx context.Context, mc wazero.ModuleConfig, 
 		mc = wazero.NewModuleConfig()
 	}
 	in := &Inst{S: s}
+	if s.served != nil {
+		ctx = context.WithValue(ctx, hostKey{}, s.served)
+	}
 	func() {
 		defer func() {
 			if r := recover(); r != nil {
@@ -762,6 +804,9 @@ func (in *Inst) Call(ctx context.Context, c Call, fuel int32) {
 	}
 	if in.fuel != nil && fuel > 0 && !in.Mod.IsClosed() {
 		in.fuel.Set(uint64(uint32(fuel)))
+	}
+	if in.S.served != nil {
+		ctx = context.WithValue(ctx, hostKey{}, in.S.served)
 	}
 	res, out := wz.SafeCall(ctx, f, c.Args...)
 	st := Step{Kind: out.Kind, Detail: out.Detail, Exit: out.Exit}
